@@ -14,6 +14,13 @@ expressions, dtml-if), block kinds include the dtml-with spellings that render a
 namespace object, and a fifth of the cases is compiled a second time by another template class of
 the public API (security-restricted HTML, String in its own syntax, restricted String) and must
 behave the same.
+The raising / returning / completing harness objects are not only inserted by plain dtml-var
+tags: "via" nodes let every tag that evaluates a name or an expression evaluate them (dtml-var
+with options, the entity spelling, dtml-call, the conditions of dtml-if / dtml-elif / dtml-unless,
+the sequence of dtml-in, the object of dtml-with, a dtml-let binding, the value of dtml-return),
+by name and from the tag's expression, with the name found in the top-level namespace, in a
+dtml-with object / mapping or in the current dtml-in item; the model treats the target as an
+ordinary call in the expression position of the Python statement of the same name.
 """
 import hashlib
 import json
@@ -47,7 +54,19 @@ RULE = ('(1) exhaustive handler grid: handler lists of length <=3 over {E1,E2,E3
         'the DocumentTemplate.security.RestrictedDTML mix-in (AccessControl guards on the namespace; default '
         'policy, anonymous user; harness objects declare themselves public), every other of those with plain '
         'sub-templates; one in six of these extra compilations uses DT_String.String with the source '
-        'rewritten into its %(...) syntax, one in six the restricted String.  distinct = distinct (template source, sub-template '
+        'rewritten into its %(...) syntax, one in six the restricted String.  '
+        '(8) carrier grid: a harness object (probe; callable raising one of 9 classes incl. KeyError / '
+        'IndexError / AttributeError / NameError / LookupError; callable whose class is per-render data; '
+        'sub-template that raises / returns a false or true value / completes, by all 3 call routes; a plain '
+        'VALUE whose __str__ / __bool__ / second item raises, for the tags that insert text / test truth / '
+        'iterate) is '
+        'evaluated by each of 12 carrier tags (dtml-var plain / null= / size=, &dtml-name;, dtml-call, '
+        'dtml-if, dtml-elif, dtml-unless, dtml-in, dtml-with, dtml-let, dtml-return) x form (by name, '
+        'expr=, "expr") x where the namespace finds the name (top level, dtml-with object, dtml-with '
+        'mapping, dtml-in row mapping, dtml-in item object): full product in both tiers; the position of '
+        'the tag (try body with matching handlers, try body with non-matching handlers under a finally, '
+        'handler, else, finally with a pending exception, loop of tries) rotates in quick and is a full '
+        'factor in thorough.  The random trees of (4),(7) draw such via nodes too (1 node in 10).  distinct = distinct (template source, sub-template '
         'sources, environment, template class); '
         'non-trivial = the model executes at least one raise or return, or renders an else/finally block')
 ASSUMPTIONS = ['a dtml-raise name that is neither a builtin nor a zExceptions class raises *some* Exception '
@@ -66,7 +85,20 @@ ASSUMPTIONS = ['a dtml-raise name that is neither a builtin nor a zExceptions cl
                'in it; the same holds in a sub-template called with a plain mapping',
                'a security-restricted template class with objects that all declare themselves public must '
                'behave exactly like the plain class (guards decide about access, not about control flow)',
-               'a sub-template inserted with <dtml-var sub> contributes str(value) of its call result']
+               'a sub-template inserted with <dtml-var sub> contributes str(value) of its call result',
+               'a harness callable / sub-template evaluated by a tag (condition of dtml-if / dtml-elif / '
+               'dtml-unless, target of dtml-call, sequence of dtml-in, object of dtml-with, dtml-let binding, '
+               'value of dtml-return, dtml-var with options) is an ordinary call at that place: an exception it '
+               'raises is "raised by the try body / handler / else / finally" that holds the tag, whatever its '
+               'class; its value decides the condition by Python truth, is inserted as str(value), or is returned',
+               'a value that raises when the tag asks for its text (inserting tags), truth (conditions) or '
+               'items (dtml-in) makes the enclosing block raise; which of these a tag asks first is not judged',
+               'no harness exception carries the name of the evaluated variable as its message (DT_If docs: a '
+               'condition name that is not defined is false; a KeyError about that very name is not judged)',
+               'dtml-var null=: None and false values with empty text give the null text, 0 is inserted '
+               '(DT_Var docstring); other false values are not judged',
+               'an exception raised while computing the CLASS expression of dtml-raise is outside the '
+               'statement and not generated']
 SHARD_TIMEOUT = {'quick': 900, 'thorough': 3400}
 NSHARDS = {'quick': 16, 'thorough': 32}
 
@@ -133,6 +165,9 @@ def to_string_syntax(src):
             args = 'expr=' + args
         end = 's' if name == 'var' else '!' if name in ('return', 'call') else '['
         return '%%(%s%s)%s' % (name, ' ' + args if args else '', end)
+    # the entity spelling &dtml-name; belongs to the HTML syntax only: the String spelling of the
+    # same insertion is a var tag with html_quote
+    src = re.sub(r'&dtml-([A-Za-z0-9_]+);', r'<dtml-var \1 html_quote>', src)
     return _TAG.sub(f, src)
 
 
@@ -183,30 +218,78 @@ class Compiled:
         style = self.style = case.get('style', 'name')
         self.base = {'probe': self.probe, 'boom': self.boom, 'vboom': self.vboom, 'callsub': self.callsub,
                      'callfresh': self.callfresh, 'elog': self.elog,
-                     'cls': U.resolve, 'wobj': W(), 'wmap': {'wm': 1}, 't_true': 1, 't_false': 0,
+                     'cls': U.resolve, 'box': Box, 'wobj': W(), 'wmap': {'wm': 1}, 't_true': 1, 't_false': 0,
                      'seq0': [], 'seq1': [1], 'seq2': [1, 2], 'seq3': [1, 2, 3]}
         ns = self.base
         ns.update(U.CUSTOM)
         for k, v in U.RV.items():
             ns['rv_' + k] = v
-        for tree in [case['tree']] + list(case.get('subs', {}).values()):
-            for n, _ in U.walk(tree):
-                if n[0] == 'probe':
-                    ns['P_' + n[1]] = Named(self.probe, n[1])
-                elif n[0] == 'boom':
-                    ns['X_' + n[1]] = Named(self.boom, n[1], n[2], n[3], n[4])
-                elif n[0] == 'vboom':
-                    ns['X_' + n[1]] = Named(self.vboom, n[1], n[2])
-                elif n[0] == 'sub' and n[2] == 'call':
-                    ns['C_' + n[1]] = Named(self.callsub, n[1])
-                elif n[0] == 'sub' and n[2] == 'fresh':
-                    ns['F_' + n[1]] = Named(self.callfresh, n[1])
+        trees = [case['tree']] + list(case.get('subs', {}).values())
         conv = to_string_syntax if 'string' in self.klass else (lambda x: x)
         for key, nodes in case.get('subs', {}).items():
             self.subs[key] = ns['sub_' + key] = SUB(conv(U.to_src(nodes, style)))
+        via_of = {}
+        for tree in trees:
+            for n, _ in U.walk(tree):
+                if n[0] == 'via':
+                    via_of[id(n[4])] = n
+        for tree in trees:
+            for n, _ in U.walk(tree):
+                ent = self.entry(n)
+                if ent is not None:
+                    self.install(ns, ent[0], ent[1], via_of.get(id(n)))
         self.src = conv(U.to_src(case['tree'], style))
         self.subsrc = sorted((k, conv(U.to_src(v, style))) for k, v in case.get('subs', {}).items())
         self.tmpl = HTML(self.src)
+
+    def entry(self, n):
+        """(namespace name, object rendered under that name) of a harness node, or None."""
+        k = n[0]
+        if k == 'probe':
+            return 'P_' + n[1], Named(self.probe, n[1])
+        if k == 'boom':
+            return 'X_' + n[1], Named(self.boom, n[1], n[2], n[3], n[4])
+        if k == 'vboom':
+            return 'X_' + n[1], Named(self.vboom, n[1], n[2])
+        if k == 'pboom':
+            return 'PB_' + n[1], Proto(self, n[1], U.resolve(n[2]), n[3])
+        if k == 'sub' and n[2] == 'call':
+            return 'C_' + n[1], Named(self.callsub, n[1])
+        if k == 'sub' and n[2] == 'fresh':
+            return 'F_' + n[1], Named(self.callfresh, n[1])
+        if k == 'sub' and n[2] == 'var':
+            return 'sub_' + n[1], self.subs[n[1]]
+        return None
+
+    def install(self, ns, name, obj, via):
+        """Put a harness object where the template will look for it: the top-level namespace, or
+        (target of a name-form via node) the namespace layer named by the node's home."""
+        if via is None or via[2] != 'name':
+            ns[name] = obj
+            return
+        carrier, home = via[1], via[3]
+        if carrier in ('in', 'with') and not isinstance(obj, Proto):
+            if isinstance(obj, Named):
+                getter = obj.__render_with_namespace__
+            else:
+                getter = (lambda md, t=obj: t(None, md))
+            obj = Conv(getter, (lambda v: [v]) if carrier == 'in' else Box)
+        name = U.via_name(via)
+        if home == 'top':
+            ns[name] = obj
+            return
+        if ns.get(name) is obj:
+            del ns[name]
+        if home == 'withobj':
+            ns['hobj_' + name] = Holder({name: obj})
+        elif home == 'withmap':
+            ns['hmap_' + name] = {name: obj}
+        elif home == 'rowmap':
+            ns['hrows_' + name] = [{name: obj}]
+        elif home == 'rowobj':
+            ns['hitems_' + name] = [Holder({name: obj})]
+        else:
+            raise ValueError(home)
 
     # -- probes (namespace callables / objects)
     def bound(self, md):
@@ -311,6 +394,54 @@ class Compiled:
         return outcome, self.log, self.herr, exc
 
 
+class Box:
+    """What the harness hands to dtml-with when the tag's object is computed from a target."""
+    __allow_access_to_unprotected_subobjects__ = 1
+
+    def __init__(self, v):
+        self.boxed = v
+
+
+class Proto:
+    """A namespace VALUE (nothing to call) that raises when asked for its text, its truth or its
+    second item; every such request is logged."""
+    __allow_access_to_unprotected_subobjects__ = 1
+
+    def __init__(self, comp, i, cls, msg):
+        self._c = comp
+        self._a = (i, cls, msg)
+
+    def _fail(self, proto):
+        i, cls, msg = self._a
+        self._c.log.append(['o', i, proto])
+        raise cls(msg)
+
+    def __str__(self):
+        self._fail('str')
+
+    def __bool__(self):
+        self._fail('bool')
+
+    def __len__(self):
+        return 2
+
+    def __getitem__(self, k):
+        if k == 0:
+            return 'item'
+        self._fail('seq')
+
+
+class Conv:
+    """Namespace object rendered by name: conv(value of the wrapped target)."""
+
+    def __init__(self, getter, conv):
+        self.getter = getter
+        self.conv = conv
+
+    def __render_with_namespace__(self, md):
+        return self.conv(self.getter(md))
+
+
 class Named:
     """Namespace object rendered by name: the lookup hands it the namespace."""
 
@@ -375,10 +506,10 @@ def diff(model_out, model_trace, outcome, log, exc):
     # per-probe render counts first: "rendered exactly once" is a count
     cnt_e, cnt_m = {}, {}
     for ev in log:
-        if ev[0] in ('p', 'b', 'e'):
+        if ev[0] in ('p', 'b', 'e', 'o'):
             cnt_e[ev[1]] = cnt_e.get(ev[1], 0) + 1
     for ev in model_trace:
-        if ev[0] in ('p', 'b', 'e'):
+        if ev[0] in ('p', 'b', 'e', 'o'):
             cnt_m[ev[1]] = cnt_m.get(ev[1], 0) + 1
     for i in sorted(set(cnt_e) | set(cnt_m)):
         if cnt_e.get(i, 0) != cnt_m.get(i, 0):
@@ -399,6 +530,8 @@ def diff(model_out, model_trace, outcome, log, exc):
                 probs.append('expression in the handler read error_type/error_value/error_tb as %r, model %r'
                              % (g[2], m[2]))
                 break
+        # 'o' events (a value asked for its text / truth / items): that it happened, and where in
+        # the sequence, is compared; which of the three the tag asked first is the tag's business
         elif ok and g[0] == 'sub<':
             if not same_outcome(m[2], g[2], None):
                 probs.append('sub-template %s call gave %r, model %r' % (g[1], g[2], m[2]))
@@ -690,6 +823,15 @@ def run(ctx, spec):
     gen = U.RandomVarTrees(ctx.rng, 3 if quick else 4, 2 if quick else 3)
     for _ in range(nrand):
         do(gen.case(3))
+    # (8) carrier grid: a harness object evaluated by every name / expression evaluating tag
+    npos = len(U.VIA_POSITIONS)
+    for i, carrier, form, home, tkind in U.grid_carrier_points():
+        if i % nsh != shard:
+            continue
+        poss = [U.VIA_POSITIONS[(i + i // npos) % npos]] if quick else U.VIA_POSITIONS
+        for pos in poss:
+            ctx.table('carrier grid: position', pos)
+            do(U.build_carrier_case(carrier, form, home, tkind, pos, i))
     if reach is not None:
         try:
             reach.stop()
@@ -718,7 +860,7 @@ def finish(agg):
               'monitor:probes seeing error_type bound',
               'monitor:comparisons on a 2nd..nth render of one compiled template',
               'cases:handler-grid', 'cases:finally-grid', 'cases:placement', 'cases:random',
-              'cases:rerender-grid', 'cases:loop-grid', 'cases:random-vars',
+              'cases:rerender-grid', 'cases:loop-grid', 'cases:random-vars', 'cases:carrier-grid',
               'varied:cases where one computed raise tag object gave different results',
               'varied:cases where one data return tag object gave different results',
               'varied:cases where one data fault tag object gave different results',
@@ -751,6 +893,25 @@ def finish(agg):
             inc.append('dtml-with spelling never rendered by a restricted template: ' + v)
     if not semg.get('call ended by return'):
         inc.append('no call of a restricted template ended by a return')
+    for carrier in U.CARRIERS:
+        for form in U.carrier_forms(carrier):
+            for what in ('raised', 'gave a value'):
+                if not sem.get('via: target %s, carrier %s/%s' % (what, carrier, form)):
+                    inc.append('no harness object %s while evaluated by carrier %s, %s form'
+                               % (what, carrier, form))
+    for home in U.HOMES:
+        for what in ('raised', 'gave a value'):
+            if not sem.get('via: target %s, found in %s' % (what, home)):
+                inc.append('no harness object %s that the namespace found in: %s' % (what, home))
+    for k in ('via: condition True', 'via: condition False', 'via: null text inserted',
+              'return of a value computed by a harness call',
+              'raise by a value the tag asks for its str', 'raise by a value the tag asks for its bool',
+              'raise by a value the tag asks for its seq'):
+        if not sem.get(k):
+            inc.append('semantic situation never exercised: ' + k)
+    for pos in U.VIA_POSITIONS:
+        if not t.get('carrier grid: position', {}).get(pos):
+            inc.append('carrier grid position never built: ' + pos)
     for r in ('var', 'call', 'fresh'):
         if not sem.get('sub-template call route ' + r):
             inc.append('sub-template call route never exercised: ' + r)
